@@ -202,10 +202,17 @@ func GetRetentionTimeMs(retentionHours int, currTime time.Time) uint64 {
 	return uint64(retentionTime.UnixMilli())
 }
 func deleteSegmentsFromEmptyPqMetaFiles(segmentsToDelete map[string]*structs.SegMeta) {
+	queued := false
 	for _, segmetaEntry := range segmentsToDelete {
 		for pqid := range segmetaEntry.AllPQIDs {
 			writer.RemoveSegmentFromEmptyPqmeta(pqid, segmetaEntry.SegmentKey)
+			queued = true
 		}
+	}
+	if queued {
+		// the removals are only queued: wait until they are written, the caller is about to
+		// remove the sfm files, the only place where the pqids of the segments are recorded
+		writer.FlushPqsRequests()
 	}
 }
 
@@ -347,7 +354,7 @@ func DeleteSegmentData(segmentsToDelete map[string]*structs.SegMeta) {
 	}
 
 	// The entries come from segmeta.json, which does not carry the pqids of a segment: read them
-	// from the sfm file before the segment files are removed, they are needed in step 4
+	// from the sfm file before the segment files are removed, they are needed in step 1
 	for _, segMetaEntry := range segmentsToDelete {
 		if segMetaEntry.AllPQIDs != nil {
 			continue
@@ -360,7 +367,11 @@ func DeleteSegmentData(segmentsToDelete map[string]*structs.SegMeta) {
 		segMetaEntry.AllPQIDs = sfmData.AllPQIDs
 	}
 
-	// 1) First iterate through blob
+	// 1) First the emptyPqMeta files, while the sfm files with the pqids still exist: if we get interrupted
+	//    after the segment files are gone, the next run can no longer find out which emptyPqMeta files to clean
+	deleteSegmentsFromEmptyPqMetaFiles(segmentsToDelete)
+
+	// 2) then iterate through blob
 	for _, segMetaEntry := range segmentsToDelete {
 
 		// Delete segment files from s3
@@ -392,16 +403,13 @@ func DeleteSegmentData(segmentsToDelete map[string]*structs.SegMeta) {
 		log.Infof("DeleteSegmentData: deleted seg blob (if blob enabled): %v", segMetaEntry.SegmentKey)
 	}
 
-	// 2) then recursively delete local files
+	// 3) then recursively delete local files
 	writer.RemoveSegBasedirs(segBaseDirs)
 
-	// 3) Then from in memory metadata
+	// 4) Then from in memory metadata
 	for _, segMetaEntry := range segmentsToDelete {
 		segmetadata.DeleteSegmentKey(segMetaEntry.SegmentKey)
 	}
-
-	// 4) then emptyPqMeta files
-	deleteSegmentsFromEmptyPqMetaFiles(segmentsToDelete)
 
 	// 5) Then lastly delete from segmeta.json, because if we remove it from here before deleting from the rest and
 	//    there is system restart, these files will stay forever since we do not have segmeta entry from them
